@@ -191,9 +191,89 @@ func runC22(r *lib.Run) {
 					r.Hit("mirror-ok")
 				}
 			}
+			// (3) requests that differ in one value: the difference is reported, and reported the
+			// same way (mirrored) whichever request comes first
+			for ei, u := range ups {
+				if ei > 5 {
+					break
+				}
+				b := proto.Clone(a).(*gpb.SetRequest)
+				bu := b.Update[ei]
+				edit := ""
+				// a key leaf whose value contradicts the key in its own path is not a meaningful request
+				isKeyLeaf := false
+				full := append(append([]*gpb.PathElem{}, a.Prefix.GetElem()...), bu.Path.GetElem()...)
+				if n := len(full); n > 0 {
+					for _, e := range full[:n-1] {
+						if _, ok := e.Key[full[n-1].Name]; ok {
+							isKeyLeaf = true
+						}
+					}
+				}
+				if isKeyLeaf {
+					continue
+				}
+				if ll := bu.Val.GetLeaflistVal(); ll != nil && len(ll.Element) > 0 {
+					switch (i + ei) % 3 {
+					case 0:
+						if len(ll.Element) > 1 {
+							ll.Element = ll.Element[:len(ll.Element)-1]
+							edit = "leaf-list-truncated"
+						}
+					case 1:
+						ll.Element = append(ll.Element, &gpb.TypedValue{Value: &gpb.TypedValue_StringVal{StringVal: "zz-extra"}})
+						if ll.Element[0].GetStringVal() == "" {
+							ll.Element[len(ll.Element)-1] = proto.Clone(ll.Element[0]).(*gpb.TypedValue)
+						}
+						edit = "leaf-list-extended"
+					default:
+						if len(ll.Element) > 1 && !proto.Equal(ll.Element[0], ll.Element[len(ll.Element)-1]) {
+							ll.Element[0], ll.Element[len(ll.Element)-1] = ll.Element[len(ll.Element)-1], ll.Element[0]
+							edit = "leaf-list-reordered"
+						}
+					}
+				} else if sv, ok := bu.Val.Value.(*gpb.TypedValue_StringVal); ok {
+					sv.StringVal += "-edited"
+					edit = "string-changed"
+				} else if bv, ok := bu.Val.Value.(*gpb.TypedValue_BoolVal); ok {
+					bv.BoolVal = !bv.BoolVal
+					edit = "bool-changed"
+				}
+				if edit == "" || proto.Equal(u, bu) {
+					continue
+				}
+				r.Hit("edit:" + edit)
+				var dab, dba gnmidiff.SetRequestIntentDiff
+				var e1, e2 error
+				wb := w(map[string]interface{}{"edit": edit, "b": lib.Clip(b.String(), 4000)})
+				if r.Guard("DiffSetRequest", wb, func() {
+					dab, e1 = gnmidiff.DiffSetRequest(a, b, sch)
+					dba, e2 = gnmidiff.DiffSetRequest(b, a, sch)
+				}) {
+					continue
+				}
+				if e1 != nil || e2 != nil {
+					r.Hit("edit-error:" + edit)
+					if (e1 == nil) != (e2 == nil) {
+						r.Violate("asymmetric-error", "edit:"+edit+":"+mode, fmt.Sprintf("Diff(a,b) err=%v, Diff(b,a) err=%v", e1, e2), wb)
+					}
+					continue
+				}
+				if !reflect.DeepEqual(dab.MissingUpdates, dba.ExtraUpdates) || !reflect.DeepEqual(dab.ExtraUpdates, dba.MissingUpdates) ||
+					!reflect.DeepEqual(dab.CommonUpdates, dba.CommonUpdates) || !mirrorMismatch(dab, dba) {
+					r.Violate("swap-not-mirrored", "edit:"+edit+":"+mode, "Diff(b,a) is not the mirror image of Diff(a,b)", wb)
+					continue
+				}
+				if len(dab.MismatchedUpdates)+len(dab.MissingUpdates)+len(dab.ExtraUpdates) == 0 {
+					// the statement only demands the mirror law here; that different intents are told
+					// apart is not part of C22 (observed e.g. for leaves inside ordered-by user entries)
+					r.Hit("edit-not-reported:" + edit)
+				}
+				r.Hit("edit-ok")
+			}
 		}
 	}
-	r.RequireCov("mode:schema", "mode:no-schema", "self-diff-empty", "mirror-ok", "rewrite-ok:permuted", "rewrite-ok:prefix-split", "rewrite:json-for-leaves", "rewrite:replace-for-update", "rewrite:duplicated-updates")
+	r.RequireCov("mode:schema", "mode:no-schema", "self-diff-empty", "mirror-ok", "edit-ok", "rewrite-ok:permuted", "rewrite-ok:prefix-split", "rewrite:json-for-leaves", "rewrite:replace-for-update", "rewrite:duplicated-updates")
 }
 
 func mismatchKeys(d gnmidiff.SetRequestIntentDiff) []string {
